@@ -9,14 +9,14 @@ RULE = ("valid messages of the C01/C02 space (own encoder) mutated at the data-s
         "octet class, bit flips, random tails, wrong subset counts incl. 0 and 65535, compression flag toggled, "
         "descriptor lists with unknown/ill-formed/huge-replication descriptors) and at the message level (section "
         "lengths, total length, truncation, nested start markers, random bytes); pure random byte strings; compressed "
-        "data whose delayed replication factors differ between subsets. "
+        "data whose delayed replication factors differ between subsets; data present bit-map templates (implementation only). "
         "distinct = distinct (mutation kind, outcome class)")
 ASSUMPTIONS = c01.ASSUMPTIONS + ["the process is the harness: exit() is intercepted at link time, the abort handler is the application's"]
 P = c01.P
 prepare = c01.prepare
 
 KINDS4 = ["trunc", "trunc1", "flip", "rand", "extend", "nsub0", "nsubbig", "nsub+1", "toggle", "desc-swap", "desc-huge",
-          "desc-unknown", "desc-nofactor", "desc-deep", "empty", "ones", "zeros"]
+          "desc-unknown", "desc-nofactor", "desc-deep", "desc-af-nest", "empty", "ones", "zeros"]
 KINDSM = ["m-ok", "m-trunc", "m-len0", "m-lenbig", "m-s4len", "m-s3len", "m-s1len", "m-flip", "m-nested", "m-prefix", "m-rand", "m-s2", "m-odd"]
 
 def mutate4(rng, kind, ed, flag, nsub, descs, s4):
@@ -50,6 +50,9 @@ def mutate4(rng, kind, ed, flag, nsub, descs, s4):
     elif kind == "desc-deep":
         descs = [101000, 31001, 101000, 31001, 101000, 31002] + descs[:1]
         s4 = bytearray(rng.choice([[255, 255, 255, 255, 255], [3, 2, 0, 9, 0], [9, 9, 0, 4, 4]])) + s4
+    elif kind == "desc-af-nest":
+        k = rng.choice([9, 17, 64, 65, 256, 257, 300])
+        descs = [rng.choice([204001, 204001, 204007]), 31021] * k + descs[:2]
     elif kind == "empty": s4 = bytearray()
     elif kind == "ones": s4 = bytearray([255] * rng.choice([1, 8, len(s4) + 5]))
     elif kind == "zeros": s4 = bytearray([0] * rng.choice([1, 8, len(s4) + 5]))
@@ -121,6 +124,44 @@ def factor_scenarios(rng, n):
         out.append(Scenario("cfac-%d" % i, ls, {"kind": "compressed-factor", "tables": name}))
     return out
 
+def bitmap_scenarios(rng, n):
+    """data present bit-maps (2 22/2 23/2 24/2 25/2 32 000, 2 36/2 37, 0 31 031, marker operators, class 33
+    elements): outside the model (the tie is not made, `nomodel`), the implementation alone is run under
+    the sanitizers.  Bit-map sizes, marker counts and the data disagree on purpose."""
+    out = []
+    for i in range(n):
+        name = rng.choice(["cur", "v13"])
+        B, D = P[name]
+        nums = [d for d, e in B.items() if regs.X(d) not in (31, 33) and 1 <= e[2] <= 32]
+        q33 = [d for d in B if regs.X(d) == 33] or [33007]
+        data = [rng.choice(nums) for _ in range(rng.choice([1, 2, 3, 5]))]
+        op = rng.choice([222000, 223000, 224000, 225000, 232000])
+        nbm = rng.choice([0, 1, len(data), len(data), len(data) + 1, 2 * len(data) + 3])
+        bm = rng.choice([[236000], [], [237000], [236000, 236000]]) + \
+             (rng.choice([[101000 + nbm, 31031], [101000, 31001, 31031], [31031] * min(nbm, 4)]) if nbm or rng.random() < 0.5 else [])
+        nmk = rng.choice([0, 1, len(data), len(data) + 2, 7])
+        mk = op + 255
+        inner = rng.choice([[1031, 1032], [8023], [8024], []])
+        body = rng.choice([[mk], [q33[0] if op == 222000 else mk], [mk, rng.choice(q33)]])
+        marks = ([100000 + 1000 * len(body) + nmk] + body) if nmk else body * rng.choice([0, 1, 2])
+        descs = data + [op] + bm + inner + marks
+        if rng.random() < 0.3:
+            descs += [rng.choice([235000, 237255, 237000])] + [op, 237000] + marks
+        if rng.random() < 0.2:
+            descs = [rng.choice(nums)] + descs + [rng.choice(nums)]
+        if rng.random() < 0.15:
+            rng.shuffle(descs)
+        flag = rng.choice([0, 0, 64])
+        nsub = rng.choice([1, 1, 2, 3])
+        kind = rng.choice(["zeros", "ones", "rand", "short"])
+        ln = rng.choice([0, 2, 10, 40, 120]) if kind != "short" else rng.choice([0, 1, 2])
+        s4 = bytes({"zeros": 0, "ones": 255}.get(kind, 0) if kind in ("zeros", "ones") else rng.randrange(256) for _ in range(ln))
+        ls = ["T.use " + name, "ds.decode %d 1 %d %d 0 0 %s %s" % (rng.choice([3, 4, 4]), flag, nsub, ",".join("%06d" % d for d in descs), s4.hex() or "-")]
+        for k in range(min(nsub, 2)):
+            ls += ["dd.list %d" % k, "dd.vals %d" % k]
+        out.append(Scenario("dpbm-%d" % i, ls, {"kind": "bitmap-" + kind, "tables": name, "nomodel": True}))
+    return out
+
 def scenarios(rng, tier, runner):
     n = 160 if tier == "quick" else 3000
     stage1 = []
@@ -156,12 +197,26 @@ def scenarios(rng, tier, runner):
                 ls += ["dd.list %d" % k, "dd.vals %d" % k]
             out.append(Scenario("msg-%s-%s" % (kind, s.name), ls, {"kind": kind, "tables": s.meta["tables"]}))
     out += factor_scenarios(rng, 120 if tier == "quick" else 2500)
+    out += bitmap_scenarios(rng, 250 if tier == "quick" else 6000)
     return out
+
+def _outside_model(scn):
+    """a descriptor list with data present bit-map operators (2 21 … 2 37): not modelled"""
+    for l in scn.lines:
+        t = l.split()
+        if t and t[0] == "ds.decode" and len(t) >= 9:
+            for d in t[7].split(","):
+                if d.isdigit() and int(d) // 100000 == 2 and 21 <= int(d) // 1000 % 100 <= 37:
+                    return True
+    return False
 
 def compare(scn, lscn, cr, lr):
     """exact tie on the outcome; after a decode flagged invalid the values are not compared (the partially
     read field is not modelled)"""
     from vlib.engine import compare as cmp0
+    if scn.meta.get("nomodel") or _outside_model(scn):
+        # outside the model: only the implementation's own outcome counts (crash, time-out, exit: the oracle)
+        return cmp0(scn, cr, (list(cr[0]), None), None)
     c_out, l_out = list(cr[0]), list(lr[0])
     bad = False
     for i, l in enumerate(scn.lines):
